@@ -380,6 +380,9 @@ func gen(g *zv.Gen) {
 		keep(c)
 	}
 
+	// ---- the hello on the wire of a real client (c29 wire)
+	genWire(g, tb)
+
 	// ---- parse stream
 	emitParse := func(b []byte) { g.Emit("c29 parse " + zv.Hex(b)) }
 	g.Emit("c29 parse -")
